@@ -215,10 +215,10 @@ type FileOp struct {
 
 // File is a whole *jen.File.
 type File struct {
-	Ctor string    `json:"ctor"` // NewFile NewFilePath NewFilePathName
-	Args []Text    `json:"args"`
-	Ops  []FileOp  `json:"ops,omitempty"`
-	Body []*Node   `json:"body,omitempty"`
+	Ctor string   `json:"ctor"` // NewFile NewFilePath NewFilePathName
+	Args []Text   `json:"args"`
+	Ops  []FileOp `json:"ops,omitempty"`
+	Body []*Node  `json:"body,omitempty"`
 }
 
 // ---- construction helpers (used by the translator and the generators) ----
